@@ -30,12 +30,18 @@ type HeaderValueExtractStrategy struct {
 
 func (es HeaderValueExtractStrategy) GetAuthData(s heimdall.Context) (string, error) {
 	if val := s.Request().Header(es.Name); len(val) != 0 {
-		if len(es.Scheme) != 0 && !strings.HasPrefix(val, es.Scheme+" ") {
+		if len(es.Scheme) == 0 {
+			return strings.TrimSpace(val), nil
+		}
+
+		// the names of the authentication schemes are case-insensitive (RFC 7235, section 2.1)
+		schemeLen := len(es.Scheme)
+		if len(val) <= schemeLen || val[schemeLen] != ' ' || !strings.EqualFold(val[:schemeLen], es.Scheme) {
 			return "", errorchain.NewWithMessagef(heimdall.ErrArgument,
 				"'%s' header present, but without required '%s' scheme", es.Name, es.Scheme)
 		}
 
-		return strings.TrimSpace(strings.TrimPrefix(val, es.Scheme)), nil
+		return strings.TrimSpace(val[schemeLen:]), nil
 	}
 
 	return "", errorchain.NewWithMessagef(heimdall.ErrArgument, "no '%s' header present", es.Name)
